@@ -734,3 +734,6 @@ _OLD_AR = "    area = 2 * pi * radius * length\n    current /= area  # nA / um^2
 for _p in ("C09", "C08", "C02", "C15"):
     P(_p, CU, _OLD_AR, "    return 1e5 * current / (2.0 * pi * radius * length)")
 B("C09", CU, _OLD_AR, "    return 1e4 * current / (2.0 * pi * radius * length)", "R-C09-area")
+# the inverse indices of unique as a subscript
+for _p in ("C01", "C12"):
+    P(_p, CU, "    _, inverse_indices = jnp.unique(arr, return_inverse=True)\n    return inverse_indices", "    return jnp.unique(arr, return_inverse=True)[1]")
